@@ -9,6 +9,7 @@ import glob
 import itertools
 import json
 import os
+import re
 
 from vlib import common
 from vlib.common import Diff, VERIF, LEAN, REPO, HARNESS
@@ -287,6 +288,236 @@ def build_container(ctx):
     return common.build_light(ctx, "h_container", ["container.cpp"], srcs), False
 
 
+# --------------------------------------------------------------------------------------------
+# HashSet
+
+HS_LINE = re.compile(r"^ok (.*?) \| (\d+ \d+ \d+ \d+ de=\d) \|(.*) \| (c=.*)$")
+
+
+class HashSetMonitor:
+    """C18 for con::set / con::map as a predicate on ONE side's trace: a Python dict; compared:
+    return values, the contents read from the bucket array, size() = number of keys, every full
+    enumeration (map_enum sweep, set_enum stepwise) visits each entry exactly once, entries
+    constructed - destroyed = entries alive = size().  Table length, threshold, bucket and
+    enumeration *order* are not compared."""
+
+    def __init__(self):
+        self.bad = None
+        self.d = {}
+        self.seen = None
+
+    def fail(self, i, kind, msg):
+        if self.bad is None:
+            self.bad = (i, kind, msg)
+
+    def feed(self, i, line, out):
+        t = line.split()
+        if not t or out == "bad-op":
+            return
+        mo = HS_LINE.match(out)
+        if not mo:
+            self.fail(i, "unexpected-answer", out[:80])
+            return
+        o = [None, mo.group(2), mo.group(3), mo.group(4)]
+        ret = mo.group(1)
+        op = t[0]
+        d = self.d
+        want = None
+        if op == "reset":
+            self.d = d = {}
+            self.seen = None
+        elif op == "put":
+            d[int(t[1])] = int(t[2]); want = "-"; self.seen = None
+        elif op == "touch":
+            want = "v%d" % d.setdefault(int(t[1]), 0); self.seen = None
+        elif op == "addi":
+            want = "v%d" % d.setdefault(int(t[1]), int(t[2])); self.seen = None
+        elif op == "get":
+            k = int(t[1]); want = "v%d" % d[k] if k in d else "none"
+        elif op == "rm":
+            k = int(t[1]); want = "true" if k in d else "false"; d.pop(k, None); self.seen = None
+        elif op == "size":
+            want = str(len(d))
+        elif op in ("resize", "shrink"):
+            want = "-"; self.seen = None
+        elif op == "quiet":
+            want = "-"
+        elif op == "clear":
+            d.clear(); want = "-"; self.seen = None
+        elif op == "enum":
+            got = sorted(ret.split())
+            exp = sorted("%d:%d" % kv for kv in d.items())
+            if got != exp:
+                kind = "enum-twice" if len(set(got)) != len(got) else ("enum-missed" if len(got) < len(exp) else "enum-wrong")
+                self.fail(i, kind, "a full enumeration visited [%s], the map holds [%s]" % (" ".join(got), " ".join(exp)))
+        elif op == "estart":
+            self.seen = []
+        elif op == "enext" and self.seen is not None:
+            if ret == "end" and self.seen == "done":
+                pass
+            elif ret == "end":
+                exp = sorted("%d:%d" % kv for kv in d.items())
+                if sorted(self.seen) != exp:
+                    self.fail(i, "enum-missed" if len(self.seen) < len(exp) else "enum-wrong",
+                              "stepwise enumeration visited [%s], the set holds [%s]" % (" ".join(self.seen), " ".join(exp)))
+                self.seen = "done"  # m_Index stays 0: every further NextElement answers the end
+            elif self.seen == "done":
+                self.fail(i, "enum-after-end", "NextElement returned %s after the end of the enumeration" % ret)
+            else:
+                if ret in self.seen:
+                    self.fail(i, "enum-twice", "stepwise enumeration visited %s twice" % ret)
+                self.seen.append(ret)
+        if want is not None and ret != want:
+            self.fail(i, "return-value", "%s returned `%s`, an abstract map returns `%s`" % (op, ret, want))
+        f = o[1].split(" ")
+        cnt = int(f[0])
+        got = o[2].split()
+        exp = ["%d:%d" % kv for kv in sorted(d.items())] if got != ["-"] else ["-"]
+        if got != exp:
+            lost = [e for e in exp if e not in got]
+            kind = "contents-lost" if lost else "contents"
+            self.fail(i, kind, "the table holds [%s], an abstract map holds [%s]" % (" ".join(got), " ".join(exp)))
+        if cnt != len(d):
+            self.fail(i, "size", "size() = %d, an abstract map has %d keys" % (cnt, len(d)))
+        led = dict(kv.split("=") for kv in o[3].split(" "))
+        if "keys-live" in led:
+            self.fail(i, "ledger-keys", "key objects alive %s != value objects alive %s" % (led["keys-live"], led["live"]))
+        if int(led["live"]) != len(d):
+            self.fail(i, "ledger-live", "%s entries alive but the map holds %d" % (led["live"], len(d)))
+        if int(led["c"]) - int(led["d"]) != int(led["live"]):
+            self.fail(i, "ledger-balance", "entries constructed %s - destroyed %s != alive %s" % (led["c"], led["d"], led["live"]))
+
+
+COLLIDE = [1, 8, 18, 120]            # 1 = 8 (mod 7), 1 = 18 (mod 17), 1 = 120 (mod 7 and mod 17)
+
+
+def hash_universe(rng):
+    style = rng.random()
+    n = rng.choice([4, 4, 6, 9, 12, 24])
+    if style < 0.35:
+        hs = COLLIDE + [rng.choice([2, 3, 9, 16, 35, 36, 239, 1 + 7 * 17 * 37, rng.randint(0, 300)]) for _ in range(n - 4)]
+    elif style < 0.5:
+        hs = [rng.choice([0, 5, 2 ** 64 - 1])] * n                              # everything collides
+    elif style < 0.75:
+        hs = [rng.randint(0, 40) for _ in range(n)]
+    elif style < 0.9:
+        hs = [rng.choice([rng.randint(0, 2 ** 64 - 1), 2 ** 63, 2 ** 63 - 1, 2 ** 64 - 1 - rng.randint(0, 20)]) for _ in range(n)]   # negative intptr_t
+    else:
+        hs = list(range(n))
+    return hs
+
+
+def gen_hashset(rng, n):
+    hs = hash_universe(rng)
+    nk = len(hs)
+    lines = ["reset " + " ".join(str(h) for h in hs)]
+    en = False
+    for _ in range(n):
+        r = rng.random()
+        k = rng.randrange(nk)
+        v = rng.randint(1, 9)
+        if r < 0.03:
+            lines.append(rng.choice(["put %d 1" % nk, "put 0", "get x", "frob", "rm", "resize -1", "resize 100001", "enext 1", "reset", "touch 99999999999999999999999"]))
+        elif r < 0.30:
+            lines.append("put %d %d" % (k, v)); en = False
+        elif r < 0.36:
+            lines.append("touch %d" % k); en = False
+        elif r < 0.42:
+            lines.append("addi %d %d" % (k, v)); en = False
+        elif r < 0.52:
+            lines.append("get %d" % k)
+        elif r < 0.72:
+            lines.append("rm %d" % k); en = False
+        elif r < 0.74:
+            lines.append("size")
+        elif r < 0.79:
+            lines.append("resize %d" % rng.choice([0, 1, 2, 3, 5, 7, 8, 17, 20, rng.randint(0, 40)])); en = False
+        elif r < 0.85:
+            lines.append("shrink"); en = False
+        elif r < 0.87:
+            lines.append("clear"); en = False
+        elif r < 0.92:
+            lines.append("enum")
+        elif r < 0.94:
+            lines.append("estart"); en = True
+        else:
+            lines.append("enext")            # bad-op on both sides when no enumerator is live
+    lines.append("enum")
+    lines.append("estart")
+    lines += ["enext"] * (nk + 2)
+    return lines
+
+
+def exh_hashset(maxlen):
+    """every history of the given length over 4 colliding keys (correspondence input, not proof)"""
+    alphabet = ["put 0 1", "put 1 2", "put 2 3", "put 3 4", "rm 0", "rm 1", "rm 2", "shrink", "resize 2", "clear"]
+    head = "reset " + " ".join(str(h) for h in COLLIDE)
+    return [[head] + list(c) + ["enum"] for c in itertools.product(alphabet, repeat=maxlen)]
+
+
+def gen_growth_set(rng, n, style):
+    if style == "identity":
+        hs = list(range(n))
+    elif style == "collide":
+        hs = [rng.choice([1, 8, 18, 120, 1 + 7 * 17 * 37 * rng.randint(0, 5)]) + 7 * 17 * rng.randint(0, 3) for _ in range(n)]
+    else:
+        hs = [rng.randint(0, 2 ** 64 - 1) for _ in range(n)]
+    lines = ["reset " + " ".join(str(h) for h in hs)]
+    if n > 500:
+        lines.append("quiet 1")
+    order = list(range(n))
+    rng.shuffle(order)
+    for j, k in enumerate(order):
+        lines.append("put %d %d" % (k, k % 97 + 1))
+        r = rng.random()
+        if r < 0.05:
+            lines.append("get %d" % order[rng.randint(0, j)])
+        elif r < 0.08:
+            lines.append("rm %d" % order[rng.randint(0, j)])
+        elif r < 0.085:
+            lines.append("shrink")
+        elif r < 0.09 and n <= 4000:
+            lines.append("enum")
+    lines.append("enum")
+    rng.shuffle(order)
+    for j, k in enumerate(order):
+        lines.append("rm %d" % k)
+        if j in (n // 2, n - 3):
+            lines += ["shrink", "enum"]
+    lines += ["shrink", "enum", "put 0 1", "enum"]
+    return lines
+
+
+def build_hashset(ctx):
+    return common.build_light(ctx, "h_hashset", ["hashset.cpp"],
+                              ["src/Common/MEM/Memory.cpp", "src/Common/MEM/DefaultAlloc.cpp", "src/Common/MEM/BlockAlloc.cpp",
+                               "src/Container/set.cpp"], extra=["-ffunction-sections", "-Wl,--gc-sections"])
+
+
+def check_hashset(ctx, quick):
+    exe = build_hashset(ctx)
+    d = PhiDiff(ctx, Prop(HashSetMonitor), exe, "hashset")
+    bad = d.run_batch(corpus_cases("hashset"))
+    rng = ctx.rng("hashset")
+    ncases, length = (300, 150) if quick else (4000, 600)
+
+    def rnd():
+        for i in range(ncases):
+            yield ("hashset:random:%d" % i, gen_hashset(rng, rng.choice([8, 30, length])))
+    bad += run_area(ctx, d, "hashset", rnd(), 100)
+    exh = exh_hashset(3 if quick else 5)
+    ctx.stats["hashset_exhaustive_histories"] = len(exh)
+    bad += run_area(ctx, d, "hashset", (("hashset:exh:%d" % i, c) for i, c in enumerate(exh)), 5000)
+    sizes = [(60, "collide"), (400, "identity"), (1500, "random")] if quick else \
+        [(60, "collide"), (400, "identity"), (3000, "random"), (3000, "collide"), (12000, "identity")]
+    ctx.stats["hashset_growth"] = ["%d:%s" % x for x in sizes]
+    for j, (n, style) in enumerate(sizes):
+        bad += d.run_batch([("hashset:growth:%d:%s" % (n, style), gen_growth_set(rng, n, style))])
+    ctx.oblige("correspondence harness/hashset.cpp == HashSet model on %d histories" % d.cases, bad == 0,
+               "%d differing cases" % bad, reported=True)
+    return d
+
+
 def run_area(ctx, d, area, cases_iter, batch_size):
     bad = 0
     batch = []
@@ -333,7 +564,7 @@ def check(ctx):
         ctx.notes.append("lake build failed; driver rebuilt alone to search for a failing input")
     elif not quick:
         common.leanchecker(ctx, PROPS_MODULE)
-    ds = {"container": check_container(ctx, quick)}
+    ds = {"container": check_container(ctx, quick), "hashset": check_hashset(ctx, quick)}
     ctx.samples = [gen_container(ctx.rng("sample"), 10, True)]
     cov = {
         "evaluations": sum(d.cases for d in ds.values()),
@@ -361,6 +592,9 @@ def replay(ctx, obj):
     if area == "container":
         exe, _ = build_container(ctx)
         prop = Prop(ContainerMonitor)
+    elif area == "hashset":
+        exe = build_hashset(ctx)
+        prop = Prop(HashSetMonitor)
     else:
         raise common.CheckError("unknown area " + area)
     d = PhiDiff(ctx, prop, exe, area)
